@@ -9,7 +9,7 @@ SPEC = {
                                     "C15_all_down_is_warning", "C15_unavailable_table",
                                     "C15_unavailable_table_design_refuted", "C15_second_call_served_from_cache",
                                     "C15_errors_leave_no_trace", "C15_recovered_upstream_answers",
-                                    "C15_range_slices_collapse", "C15_group_built_in_configured_order", "C15_nonvacuous"]},
+                                    "C15_range_slices_collapse", "C15_multislice_failover", "C15_group_built_in_configured_order", "C15_nonvacuous"]},
     "harness_args": lambda tier: ["C15", "--tier", tier, "--n", 150 if tier == "quick" else 1500, "--workers", 160,
                                   "--binary", 60 if tier == "quick" else 500],
     "search_args": lambda tier: ["C15", "--tier", "search", "--n", 500, "--workers", 160, "--binary", 0],
